@@ -3,6 +3,8 @@ import PasslibVerif.Props.C04
 import PasslibVerif.Props.C06
 import PasslibVerif.Props.C09
 import PasslibVerif.Props.C11
+import PasslibVerif.Props.C11Blowfish
+import PasslibVerif.Props.C11Scrypt
 import PasslibVerif.Props.C12
 import PasslibVerif.Props.C13
 import PasslibVerif.Props.C14
